@@ -37,6 +37,8 @@ ASSUMES = [
     "(each exclusion is a reported finding with a _refuted lemma and a corpus witness)",
     "no empty list/dict is passed for a flattened field reached through a dotted path (there sync and asyncio differ: known finding)",
     "no flattened key is a prefix of another flattened key of the same method (the valuation model keeps such paths apart)",
+    "no flattened leaf that is a repeated, map or message field of a plain protobuf message reached from a proto-plus request "
+    "(protobuf refuses the assignment the templates emit: reported finding, corpus witness; the Values contract does not cover it)",
     "at most one member of any oneof is passed in one call (the Values contract has no oneofs; such calls are judged by the oracle only)",
     "request call: a cross-package proto-plus request whose set fields all hold false values is replaced by a new empty message "
     "(stated in C05_flattened_equiv's second disjunct; known finding)",
@@ -59,9 +61,17 @@ def pick_sigs(r, idx, req_fqn, cross, hostile, avoid_defects=False):
     cands = []
     for p, f, cont in paths:
         segs = p.split(".")
-        if any(s in reserved for s in segs[:-1]) and hostile != "reserved_segment":
-            continue
         in_pb2 = not idx.proto_plus_pkg(idx.package_of(cont))
+        cur, bad = req_fqn, False
+        for sg in segs[:-1]:                  # a keyword-named message field of a plain protobuf message cannot be spelled request.<kw>.x
+            nf = next(x for x in idx.msgs[cur][0].field if x.name == sg)
+            if sg in keyword.kwlist and not idx.proto_plus_pkg(idx.package_of(cur)):
+                bad = True
+            cur = nf.type_name
+        if in_pb2 and idx.proto_plus_pkg(idx.package_of(req_fqn)) and (f.type == F.TYPE_MESSAGE or f.label == F.LABEL_REPEATED):
+            bad = True                        # request.<pb2 sub-message>.<repeated or message field> = value: protobuf refuses (reported)
+        if bad:
+            continue
         if segs[-1] in keyword.kwlist and in_pb2:
             continue                          # a plain protobuf field keeps its name: "class: Optional[str]" (reported)
         cands.append((p, f, cont))
@@ -105,6 +115,11 @@ def make_api(r, shape):
         other = api.zoo(api.dep, "Shared")
     elif shape == "sub":
         other = api.zoo(api.sub, "Shared")
+    if other is not None:
+        # requests of the API's package that reach into a message of the other package (plain protobuf dependency / proto-plus
+        # sub-package): dotted signatures whose leaf, reserved words included, is owned by another package
+        for mr in main_req:
+            mr.field("resource", 90, other.fqn)
     resp = api.main.message("Reply")
     resp.field("note", 1, "string").field("n", 2, "int32")
     svc = api.main.service(r.choice(["Library", "Catalog", "WidgetAdmin"]), host=api.host)
@@ -127,6 +142,26 @@ def make_api(r, shape):
 def witness_api(kind):
     """Deterministic single-method APIs, one per candidate defect (the witnesses of the _refuted lemmas)."""
     cross = kind in ("cross_two_repeated", "cross_dotted", "reserved_in_pb2", "keyword_param_pb2")
+    far = {"pb2_reserved_leaf": "acme/common/v1/common.proto", "sub_reserved_leaf": "google/example/library/v1/shared/shared.proto",
+           "pb2_nonprimitive_leaf": "acme/common/v1/common.proto"}.get(kind)
+    if far:
+        # a request of the API's package with a field whose message lives elsewhere (plain protobuf dependency / proto-plus
+        # sub-package) and has a reserved-word leaf: google.api.MonitoredResource.type style
+        main = apigen.File("google/example/library/v1/library.proto", "google.example.library.v1", deps=list(apigen.STD_DEPS) + [far])
+        other = apigen.File(far, "google.example.library.v1.shared" if kind == "sub_reserved_leaf" else "acme.common.v1")
+        res_ = other.message("MonitoredThing")
+        res_.field("type", 1, "string").field("next", 2, "int32").field("title", 3, "string")
+        res_.map_field("labels", 4, "string", "string")
+        res_.field("tags", 5, "string", repeated=True)
+        rq = main.message("WriteRequest")
+        rq.field("parent", 1, "string").field("resource", 2, res_.fqn).field("type", 3, "string")
+        resp = main.message("Reply")
+        resp.field("note", 1, "string")
+        svc = main.service("Library", host="library.example.com")
+        svc.rpc("GetBook", rq.fqn, resp.fqn, sigs=["parent,resource.tags"] if kind == "pb2_nonprimitive_leaf" else
+                ["parent,resource.type", "resource.next, resource.title"])
+        return apigen.request([other, main], to_generate=([other.proto.name] if kind == "sub_reserved_leaf" else []) + [main.proto.name],
+                              parameter="transport=grpc")
     subpkg = kind == "falsy_request"
     main = apigen.File("google/example/library/v1/library.proto", "google.example.library.v1",
                        deps=list(apigen.STD_DEPS) + (["acme/common/v1/common.proto"] if cross else [])
@@ -156,20 +191,21 @@ def witness_api(kind):
     resp = main.message("Reply")
     resp.field("note", 1, "string")
     svc = main.service("Library", host="library.example.com")
-    sigs = {"cross_two_repeated": ["name,tags,nums"], "cross_dotted": ["name,sub.text"], "reserved_segment": ["class.title"],
+    sigs = {"cross_two_repeated": ["name,tags,nums"], "cross_dotted": ["name,sub.text"], "reserved_segment": ["class.title,name", "class.tags"],
             "control_name": ["name,retry"], "duplicate_param": ["book.title,other.title"], "empty_container_dotted": ["name,book.tags"],
             "reserved_in_pb2": ["name,type"], "falsy_request": ["level"], "keyword_param_pb2": ["name,class"],
             "presence": ["parent,page_size,filter,flag", "ratio,note"]}[kind]
-    svc.rpc("GetBook", rq.fqn, resp.fqn, sigs=sigs)
-    return apigen.request(files + [main], to_generate=togen + [main.proto.name], parameter="transport=grpc")
+    rest = kind in ("reserved_segment", "presence")
+    svc.rpc("GetBook", rq.fqn, resp.fqn, sigs=sigs, http=("post", "/v1/books:get") if rest else None, body="*" if rest else None)
+    return apigen.request(files + [main], to_generate=togen + [main.proto.name], parameter="transport=grpc+rest" if rest else "transport=grpc")
 
 
-# corpus/C05/<kind>.json holds each of these (written by write_corpus); the first three are the witnesses of defects that were
-# repaired in /repo (353b7c7, 14fc9e4, d43e852): they stay so that a regression is reported
-WITNESSES = ["cross_two_repeated", "cross_dotted", "reserved_in_pb2", "presence", "reserved_segment", "control_name", "duplicate_param",
-             "empty_container_dotted", "falsy_request"]
+# corpus/C05/<kind>.json holds each of these (written by write_corpus); the first four are the witnesses of defects that were
+# repaired in /repo (353b7c7, 14fc9e4, d43e852, 318bb4b): they stay so that a regression is reported
+WITNESSES = ["cross_two_repeated", "cross_dotted", "reserved_in_pb2", "reserved_segment", "presence", "pb2_reserved_leaf",
+             "sub_reserved_leaf", "control_name", "duplicate_param", "empty_container_dotted", "falsy_request", "keyword_param_pb2"]
 # a witness whose class is not yet in findings/known_findings.json is reported in scratch/findings and joins the run once it is
-PENDING = {"keyword_param_pb2": "flatten.keyword_param_in_pb2_request"}
+PENDING = {"pb2_nonprimitive_leaf": "flatten.nonprimitive_leaf_in_pb2_submessage"}
 CORPUS = os.path.join(env.VERIF, "corpus", "C05")
 
 
@@ -333,10 +369,13 @@ def req_term(msg, keys, mkeys=None):
         if l is not None:
             ents.append(f"({coq.s(mk)}, {l})")
     viv = []
-    for p in all_prefixes(keys):
-        parent, f = navigate(msg, p)
-        if parent is not None and parent.HasField(f.name):
-            viv.append(p)
+    for k, mk in zip(keys, mkeys):
+        segs, msegs = k.split("."), mk.split(".")
+        for i in range(1, len(segs)):
+            p, mp = ".".join(segs[:i]), ".".join(msegs[:i])
+            parent, f = navigate(msg, p)
+            if parent is not None and parent.HasField(f.name) and mp not in viv:
+                viv.append(mp)
     return f"(mkReq {coq.lst(ents)} {coq.slist(viv)})"
 
 
@@ -531,8 +570,6 @@ class ApiRun:
                     sig = None
                     for k in bad:
                         sig = sig or classify_compile_failure(exps[k])
-                        if any(x in self.reserved for name, _, _ in exps[k] for x in name.split(".")[:-1]):
-                            sig = sig or "flatten.reserved_intermediate_segment"
                         if any(q in keyword.kwlist for _, q, _ in exps[k]):
                             sig = sig or "flatten.keyword_param_in_pb2_request"
                     ctx.violation(f"emitted {fname} of {s.name} does not compile: {type(e).__name__}: {e.msg} (line {e.lineno})",
@@ -601,7 +638,10 @@ class ApiRun:
                     set_path(exp_msg, src, key)
                 empty_dotted = [key for key in chosen if "." in key and leaf_of(exp_msg, key) is None
                                 and navigate(exp_msg, key)[1].label == FD.LABEL_REPEATED]
-                for variant, client, tr in (("Sync", s.name + "Client", "grpc"), ("Async", s.name + "AsyncClient", "grpc_asyncio")):
+                variants = [("Sync", s.name + "Client", "grpc"), ("Async", s.name + "AsyncClient", "grpc_asyncio")]
+                if self.rest_ok(m):
+                    variants.append(("Rest", s.name + "Client", "rest"))
+                for variant, client, tr in variants:
                     base = {"service_module": U.snake(s.name), "client": client, "transport": tr, "method": U.snake(m.name),
                             "consume": "stream" if m.server_streaming else "value"}
                     srcd = {"cls": cls_path, "b64": U.b64(exp_msg)}
@@ -628,6 +668,31 @@ class ApiRun:
             gen.rm(root)
         self.judge(table, exps, out, meta, extracted)
 
+    def owner_pkg(self, rq, path):
+        cur = rq
+        for sg in path.split(".")[:-1]:
+            cur = next(x for x in self.idx.msgs[cur][0].field if x.name == sg).type_name
+        return self.idx.package_of(cur)
+
+    def rest_ok(self, m):
+        """the library has a REST transport and the RPC is POST with the whole request as body (then the JSON body is the request)"""
+        from google.api import annotations_pb2
+        rule = m.options.Extensions[annotations_pb2.http]
+        return "rest" in self.req.parameter and bool(rule.post) and rule.body == "*" and not m.server_streaming and not m.client_streaming
+
+    def rest_to_calls(self, o, rq):
+        """what the loopback HTTP server saw, as one 'call' whose request is the JSON body decoded under the input descriptor"""
+        from google.protobuf import json_format
+        calls = []
+        for h in o.get("http_calls") or []:
+            msg = self.dyn.new(rq[1:])
+            try:
+                json_format.Parse(h["body"] or "{}", msg)
+                calls.append({"path": h["verb"] + " " + h["path"], "requests": [U.b64(msg)], "metadata": []})
+            except Exception as e:  # noqa
+                calls.append({"path": h["verb"] + " " + h["path"], "requests": [], "metadata": [], "undecodable": repr(e)[:200]})
+        return calls
+
     def top_field(self, rq, name):
         return next(f for f in self.idx.msgs[rq][0].field if f.name == name)
 
@@ -638,9 +703,13 @@ class ApiRun:
 
     def model_keys(self, k, paths):
         """the keys the generator (and the model: compared by fm_eqb) uses for these paths: the path, with an underscore appended
-        when the last field is a reserved word; None when the implementation's mapping is not the expected one"""
+        to every segment whose field is renamed (reserved word on a proto-plus message); None when the implementation's mapping is not the expected one"""
         ik = self.impl_keys(k)
-        if len(ik) != len(paths) or any(a != b and a != b + "_" for a, b in zip(ik, paths)):
+
+        def same(a, b):
+            sa, sb = a.split("."), b.split(".")
+            return len(sa) == len(sb) and all(x == y or x == y + "_" for x, y in zip(sa, sb))
+        if len(ik) != len(paths) or not all(same(a, b) for a, b in zip(ik, paths)):
             return None
         return ik
 
@@ -672,6 +741,9 @@ class ApiRun:
             if o is None:
                 ctx.oblige(f"T2 {self.tag}: result for call {cid}", False, "missing", "T2")
                 continue
+            if variant == "Rest":
+                o["calls"] = self.rest_to_calls(o, rq)
+            cv = "Sync" if variant == "Rest" else variant      # the REST client runs the same client.py method
             if not o["ok"] and o.get("stage") == "import":
                 # reported once per API by the compile check; nothing to compare
                 continue
@@ -679,6 +751,10 @@ class ApiRun:
                 ctx.case({"api": self.h, "method": m.name, "variant": variant, "subset": case["subset"], "expected": case["expected_request_b64"]},
                          nontrivial=bool(keys),
                          feature=[f"params={min(len(keys), 5)}", f"subset={len(sub_)}", variant, "cross-package" if cross else "same-package"]
+                         + (["reserved-intermediate-segment"] if any(x in self.reserved for i in sub_ for x in keys[i].split(".")[:-1]) else [])
+                         + (["reserved-leaf-owned-by-another-package"] if any(
+                             exp[i][0].count(".") and exp[i][2].name in self.reserved and self.owner_pkg(rq, exp[i][0]) != self.idx.package_of(rq)
+                             for i in sub_) else [])
                          + (["dotted"] if any("." in keys[i] for i in sub_) else [])
                          + (["reserved-name"] if any(params[i] != keys[i].split(".")[-1] for i in sub_) else [])
                          + sorted({self.kind_feature(exp[i][2]) for i in sub_}))
@@ -694,18 +770,25 @@ class ApiRun:
             kwt = pkw if mode in ("kwargs", "mixed") else "[]"
             groups = [(exp[i][0].rsplit(".", 1)[0] if "." in exp[i][0] else "", exp[i][2].oneof_index) for i in sub_
                       if exp[i][2].HasField("oneof_index") and not exp[i][2].proto3_optional]
-            if mode == "kwargs" and len(set(groups)) < len(groups):
+            pb2_leaf = self.idx.proto_plus_pkg(self.idx.package_of(rq)) and any(
+                "." in keys[i] and not self.idx.proto_plus_pkg(self.owner_pkg(rq, keys[i]))
+                and (exp[i][2].type == F.TYPE_MESSAGE or exp[i][2].label == F.LABEL_REPEATED) for i in sub_)
+            if pb2_leaf and mode == "kwargs":
+                # a repeated / message leaf of a plain protobuf sub-message: protobuf refuses the emitted assignment (reported finding;
+                # outside the Values contract, see ASSUMES); the oracle below reports it under its signature
+                ctx.features["nonprimitive-leaf-in-pb2-submessage (oracle only)"] += 1
+            elif mode == "kwargs" and len(set(groups)) < len(groups):
                 # two members of one oneof passed together: protobuf keeps the last one; the valuation model has no oneofs
                 # (ASSUMES); the direct oracle below still judges the call
                 ctx.features["same-oneof-pair (oracle only)"] += 1
             elif obs_term is not None:
                 self.checks.append((f"{self.tag}.{m.name} {variant} {mode} subset={case['subset']}: model outcome = observed",
-                                    f"match {self.blk_name(k)} {variant} with Some b => outcome_eqb_on {coq.slist(mkeys_x)} {coq.slist(all_prefixes(mkeys_x))} "
+                                    f"match {self.blk_name(k)} {cv} with Some b => outcome_eqb_on {coq.slist(mkeys_x)} {coq.slist(all_prefixes(mkeys_x))} "
                                     f"(exec b {ra} {kwt}) {obs_term} | None => false end"))
             else:
                 ctx.oblige(f"T2 {self.tag}.{m.name} {variant} {mode}: outcome is one the model knows", False, json.dumps(o.get("error"))[:300], "T2")
             # ---- the property's own sentences
-            known = None
+            known = "flatten.nonprimitive_leaf_in_pb2_submessage" if pb2_leaf else None
             if mode == "mixed":
                 if not (not o["ok"] and o["error"]["exception"] == "ValueError" and "individual field arguments" in o["error"]["message"] and not o["calls"]):
                     ctx.violation(f"{m.name} ({variant}): request and flattened arguments together did not raise ValueError before sending "
@@ -755,6 +838,10 @@ class ApiRun:
                    ((a.get("error") or {}).get("exception") == (b.get("error") or {}).get("exception"))
             if not same:
                 sigk = "flatten.empty_container_dotted_key" if empty_dotted else None
+                if self.idx.proto_plus_pkg(self.idx.package_of(rq)) and any(
+                        "." in keys[i] and not self.idx.proto_plus_pkg(self.owner_pkg(rq, keys[i]))
+                        and (exps[k][i][2].type == F.TYPE_MESSAGE or exps[k][i][2].label == F.LABEL_REPEATED) for i in sub_):
+                    sigk = "flatten.nonprimitive_leaf_in_pb2_submessage"
                 ctx.violation(f"{m.name}: sync and asyncio clients differ for keyword arguments {[keys[i] for i in sub_]}",
                               dict(self.case, method=m.name, subset=[keys[i] for i in sub_], expected_request_b64=U.b64(exp_msg)), sigk)
 
